@@ -49,8 +49,12 @@ def deadline(seconds):
 
 def call(fn, *a, **kw):
     """(ok, result, error text); admissible calls must return"""
+    return call_within(30, fn, *a, **kw)
+
+
+def call_within(seconds, fn, *a, **kw):
     try:
-        with quiet(), deadline(30):
+        with quiet(), deadline(seconds):
             return True, fn(*a, **kw), ""
     except Timeout as ex:
         return False, None, "Timeout: %s" % ex
@@ -168,11 +172,16 @@ def ex_scale_free(it):
     np.random.seed(it["np_seed"])
     random.seed(it["py_seed"])
     n = it["n"]
-    ok, out, err = call(scale_free_hypergraph, n, {z: c for z, c in it["counts"]}, {z: s for z, s in it["scales"]},
-                        **it["kw"])
+    ok, out, err = call_within(it.get("patience_s", 30), scale_free_hypergraph, n, {z: c for z, c in it["counts"]},
+                               {z: s for z, s in it["scales"]}, **it["kw"])
     b = Binding("hg", list(range(n)))
-    return {"fn": "scale_free_hypergraph", "n": n, "counts": [list(p) for p in it["counts"]], "ok": ok, "err": err,
-            "out": b.state(out) if ok else EMPTY}
+    c = {"fn": "scale_free_hypergraph", "n": n, "counts": [list(p) for p in it["counts"]], "ok": ok, "err": err,
+         "out": b.state(out) if ok else EMPTY}
+    if it.get("saturated") and not ok and err.startswith("Timeout"):
+        # (nearly) all possible hyperedges of a size were requested: the last ones can take arbitrarily many draws under
+        # heavy-tailed node weights and the statement promises no running time - such a call is not judged at all
+        c["not_judged"] = True
+    return c
 
 
 def ex_hoad(it):
@@ -312,6 +321,28 @@ def plan(rng, tier):
         items.append(it)
     # interleave so that calls with equal (arguments, seed) are separated by other calls
     rng.shuffle(items)
+    return items + saturated_scale_free(random.Random(rng.randrange(2 ** 31)), modes, 48 if q else 600)
+
+
+# scale_free_hypergraph asked for all, or all but one, of the C(n, size) possible hyperedges of a size (few nodes):
+# "exactly the requested number of distinct hyperedges per size" holds there as well
+SATURATED = [(4, {2: 6}), (4, {2: 5}), (4, {3: 4}), (4, {3: 3}), (4, {2: 6, 3: 4}), (4, {4: 1, 2: 6}),
+             (5, {2: 10}), (5, {2: 9}), (5, {3: 10}), (5, {3: 9}), (5, {4: 5}), (5, {4: 4}), (5, {2: 10, 4: 5}),
+             (6, {2: 15}), (6, {2: 14}), (6, {5: 6})]
+
+
+def saturated_scale_free(rng, modes, count):
+    items = []
+    for i in range(count):
+        n, cnt = SATURATED[i % len(SATURATED)]
+        zs = list(cnt)
+        rng.shuffle(zs)
+        name, kw = modes[rng.randrange(len(modes))]
+        if kw is None:
+            kw = {"corr_target": rng.choice([0, 0.2, 0.5, 0.9])}
+        items.append(dict(fn="scale_free_hypergraph", n=n, counts=[[z, cnt[z]] for z in zs],
+                          scales=[[z, rng.choice([0.5, 1.0, 2.0, 3])] for z in zs], kw=kw, mode=name, saturated=True,
+                          patience_s=2, py_seed=rng.randrange(2 ** 31), np_seed=rng.randrange(2 ** 31)))
     return items
 
 
@@ -413,6 +444,9 @@ def run(tier, seed):
         rng = random.Random(seed * 1000003 + 14)
         items = plan(rng, tier)
         cases = [EXEC[it["fn"]](it) for it in items]
+        not_judged = sum(1 for c in cases if c.get("not_judged"))
+        items = [it for it, c in zip(items, cases) if not c.get("not_judged")]
+        cases = [c for c in cases if not c.get("not_judged")]
         t1 = time.time()
         if tier == "quick":
             fut.result()
@@ -438,7 +472,9 @@ def run(tier, seed):
             shuffle_calls_p_zero=sum(1 for c in sh if c["pzero"]),
             shuffle_calls_not_inplace=sum(1 for c in sh if not c["inplace"]),
             seeded_sampler_calls=len(keys), seeded_keys_seen_more_than_once=sum(1 for k in set(keys) if keys.count(k) > 1),
-            calls_that_raised=sum(1 for c in cases if not c["ok"]))
+            calls_that_raised=sum(1 for c in cases if not c["ok"]),
+            scale_free_saturated_requests_judged=sum(1 for it in items if it.get("saturated")),
+            scale_free_saturated_requests_not_judged_no_result_in_2s=not_judged)
     res.coverage["calls_by_function"] = per_fn
     for c in (cases[0], cases[len(cases) // 2]):
         res.sample({k: v for k, v in c.items() if k not in ("inp", "arg_after")})
@@ -447,8 +483,10 @@ def run(tier, seed):
                "the rewired hyperedges of random_shuffle are read from the harness-side wrapper of random.sample (local "
                "current_edges of the calling frame); when unavailable the weaker clauses (pool = all hyperedges of that size) apply",
                "reproducibility is demanded for random_hypergraph / random_uniform_hypergraph only (as the statement does)",
-               "admissible grids: size <= number of nodes, requested counts within what exists (scale-free: <= half of C(n,size))",
-               "an admissible call must return within 30 s")
+               "admissible grids: size <= number of nodes, requested counts within what exists (scale-free: <= half of C(n,size), "
+               "plus requests for all / all but one of the C(n,size) hyperedges of a size on 4-6 nodes)",
+               "an admissible call must return within 30 s; a scale-free request at saturation gets 2 s and is NOT judged "
+               "when it has not returned by then (no running time is promised and the last hyperedges can need millions of draws)")
     return res.finish()
 
 
